@@ -195,3 +195,77 @@ Proof.
   split; [vm_compute; reflexivity|]. repeat split; try assumption.
   exists 0. split; [exact H4|]. rewrite H5, H6. discriminate.
 Qed.
+
+(* ------------------------------------------------------------------ C12: integrity on every reliable channel *)
+(* a prefix is in particular a sub-multiset: nothing is delivered more often than it was submitted *)
+Lemma count_firstn_le (m : list Z) n (l : list (list Z)) :
+  (count_occ (list_eq_dec Z.eq_dec) (firstn n l) m <= count_occ (list_eq_dec Z.eq_dec) l m)%nat.
+Proof.
+  revert l. induction n as [|n IH]; intros [|x l]; cbn; try lia.
+  specialize (IH l). destruct (list_eq_dec Z.eq_dec x m); lia.
+Qed.
+
+(* ordered AND unordered reliable channels (this receiver handles every chunk in TSN order): each
+   delivered message is one submitted message of the same channel, no duplicate, merge, split,
+   fabrication or cross-channel leak, in submission order *)
+Theorem integrity sc W t0 rc h :
+  Z.of_nat (length (chunks sc W t0)) < 2147483648 ->
+  wf_workload sc W ->
+  Forall (genuine_input (chunks sc W t0)) h ->
+  forall c,
+    (exists rest, submitted W c = log_of c (snd (run (est_r (w32 (t0 - 1)) rc) h)) ++ rest) /\
+    (forall m, (count_occ (list_eq_dec Z.eq_dec) (log_of c (snd (run (est_r (w32 (t0 - 1)) rc) h))) m <=
+                count_occ (list_eq_dec Z.eq_dec) (submitted W c) m)%nat) /\
+    (forall m, In m (log_of c (snd (run (est_r (w32 (t0 - 1)) rc) h))) ->
+               exists s, In s W /\ s_sid s = c /\ s_data s = m).
+Proof.
+  intros Hlen Hwf Hh c. destruct (safety_with_setup sc W t0 rc h Hlen Hwf Hh c) as [n Hn].
+  rewrite Hn. split; [apply firstn_is_prefix|]. split; [intros m; apply count_firstn_le|].
+  intros m Hm. apply In_firstn in Hm. unfold submitted in Hm. apply in_flat_map in Hm.
+  destruct Hm as (s & Hs & Hin). exists s. destruct (Z.eqb_spec (s_sid s) c); [|contradiction].
+  destruct Hin as [<-|[]]. repeat split; assumption.
+Qed.
+
+(* ------------------------------------------------------------------ C12: listed findings, model witnesses *)
+(* Message before Open on a negotiated channel: DATA that overtakes the COOKIE-ACK is delivered
+   while the association (and the channel) is still Connecting *)
+Example message_before_open_witness :
+  evs_of 0 (snd (run (init_r 0 f11_rc)
+                     [IInitAck 5000 true; IData (D 5000 3 0 0 53 [97]); ICookieAck])) = [EMsg [97]; EOpen].
+Proof. vm_compute. reflexivity. Qed.
+
+(* duplicate delivery on an UNORDERED reliable channel after a setup replay before establishment *)
+Definition f11u_rc : list chan := [mkChan 0 false true [110; 48] [] None None DataChannelState_Connecting []].
+Example unordered_duplicate_witness :
+  log_of 0 (snd (run (init_r 0 f11u_rc)
+                     [IInitAck 5000 true; IData (D 5000 7 0 0 53 [97]); IInitAck 5000 true;
+                      IData (D 5000 7 0 0 53 [97]); ICookieAck])) = [[97]; [97]].
+Proof. vm_compute. reflexivity. Qed.
+
+(* FORWARD-TSN (F21): (iv) the cumulative point advances but the chunk that is now next stays in
+   the reorder queue and nothing is delivered until further DATA arrives; (ii) the comparison is
+   numeric, so a FORWARD-TSN across the 2^32 wrap is ignored *)
+Example forward_tsn_no_drain_witness :
+  let chans := [mkChan 0 true true [] [] None None DataChannelState_Open []] in
+  let r := run (est_r 999 chans)
+               [IData (D 1000 3 0 0 53 [97]); IData (D 1003 3 0 2 53 [99]); IFwdTsn 1002 [(0, 1)]] in
+  r_cum (fst r) = 1002 /\ length (r_rq (fst r)) = 1%nat /\ log_of 0 (snd r) = [[97]] /\
+  log_of 0 (snd (run (fst r) [IData (D 1004 3 0 3 53 [100])])) = [[99]; [100]].
+Proof. vm_compute. repeat split; reflexivity. Qed.
+
+(* (v) the (stream, SSN) pairs of a FORWARD-TSN are applied only to streams that already have
+   ordering state: if the abandoned message was the first on its stream, every later ordered
+   message of that stream waits for SSN 0 forever *)
+Example forward_tsn_first_message_witness :
+  let chans := [mkChan 0 true true [] [] None None DataChannelState_Open []] in
+  let r := run (est_r 999 chans)
+               [IFwdTsn 1000 [(0, 0)]; IData (D 1001 3 0 1 53 [98]); IData (D 1002 3 0 2 53 [99])] in
+  r_cum (fst r) = 1002 /\ log_of 0 (snd r) = [] /\
+  length (is_pend (sm_get 0 (a_streams (r_app (fst r))))) = 2%nat.
+Proof. vm_compute. repeat split; reflexivity. Qed.
+
+Example forward_tsn_wrap_witness :
+  let chans := [mkChan 0 true true [] [] None None DataChannelState_Open []] in
+  r_cum (fst (run (est_r 4294967295 chans) [IFwdTsn 0 []])) = 4294967295 /\
+  tsn_gt 0 4294967295 = true.
+Proof. vm_compute. split; reflexivity. Qed.
